@@ -276,6 +276,11 @@ class Sim13:
                 c.create_raw(kex, NS, args[0], args[1] if len(args) > 1 else {"spec": {"x": 0}})
         elif kind == "edit":
             c.edit(kex, NS, args[0], args[1])
+        elif kind == "delete_peering":      # somebody deletes the peering object itself
+            c.delete(self.peer_res, None, self.pname)
+        elif kind == "create_peering":
+            if c.get(self.peer_res, None, self.pname) is None:
+                c.create_raw(self.peer_res, None, self.pname, {})
         elif kind == "ghost":       # a foreign actor writes into the peering status (merge-patch of `status`)
             c.edit(self.peer_res, None, self.pname, {"status": args[0]})
         elif kind == "ghost_rel":   # the same, `lastseen` given relative to now: {"id": {"age": s, ...}}
@@ -577,6 +582,13 @@ def installed(sim: Sim13) -> Iterator[None]:
         pk = (sim.peer_res.key, None, sim.pname)
         is_peer_patch = method == "PATCH" and "/clusterkopfpeerings/" in path
         before = copy.deepcopy((sim.cluster.objects.get(pk) or {}).get("status")) if is_peer_patch else None
+        payload0 = a[0] if a else k.get("payload")
+        if is_peer_patch and isinstance(payload0, dict) and isinstance(payload0.get("metadata"), dict) \
+                and payload0["metadata"].get("resourceVersion") is not None and pk in sim.cluster.objects \
+                and str(payload0["metadata"]["resourceVersion"]) != str(sim.cluster.objects[pk]["metadata"].get("resourceVersion")):
+            # optimistic concurrency of the API server: a PATCH that names another resourceVersion is refused
+            req["precondition_failed"] = True
+            return fakeapi.FakeResponse(409, fakeapi._status(409, "Conflict", "the object has been modified"))
         resp = o_serve(self, req, method, path, query, *a, **k)
         if is_peer_patch and resp.status == 200:
             payload = a[0] if a else k.get("payload")
